@@ -77,14 +77,17 @@ def sliceLen (n : Nat) (a b : Int) : Nat := normIdx n b - normIdx n a
 
 /-- `m[a:b, col] = v` -/
 def paint {α} (m : List (List α)) (a b : Int) (col : Nat) (v : α) : List (List α) :=
-  m.mapIdx fun i row => if inSlice m.length a b i then row.set col v else row
+  let lo := normIdx m.length a
+  let hi := normIdx m.length b
+  m.mapIdx fun i row => if lo ≤ i ∧ i < hi then row.set col v else row
 
 /-- `m[a:b, col] = [f 0, f 1, …]` (shapes already checked; a one-element list broadcasts) -/
 def paintSeq {α} (m : List (List α)) (a b : Int) (col : Nat) (bcast : Bool) (f : Nat → α) :
     List (List α) :=
+  let lo := normIdx m.length a
+  let hi := normIdx m.length b
   m.mapIdx fun i row =>
-    if inSlice m.length a b i then row.set col (f (if bcast then 0 else i - normIdx m.length a))
-    else row
+    if lo ≤ i ∧ i < hi then row.set col (f (if bcast then 0 else i - lo)) else row
 
 /-- `m[r, col] = v` for an in-range row `r` -/
 def setCell {α} (m : List (List α)) (r col : Nat) (v : α) : List (List α) :=
@@ -195,7 +198,7 @@ def encNotes (R R32 : Rat → Rat) (eps : Rat) (c : Cfg) (total : Rat) (n : Nat)
     | .error e => .error e
     | .ok st' => encNotes R R32 eps c total n st' rest
 
-/-- the control-change loop (storage order) -/
+/-- the control-change loop body; `encode` feeds it `sorted(control_changes, key=time)` -/
 def encCCs (R : Rat → Rat) (eps : Rat) (c : Cfg) (n : Nat) :
     List (List Int) → List PCC → Except Err (List (List Int))
   | m, [] => .ok m
@@ -207,8 +210,21 @@ def encCCs (R : Rat → Rat) (eps : Rat) (c : Cfg) (n : Nat) :
       | _, _ => .error .indexError
     else encCCs R eps c n m rest
 
-/-- stable sort by start time (`sorted(sequence.notes, key=lambda n: n.start_time)`) -/
-def sortByStart (l : List PNote) : List PNote := l.mergeSort (fun a b => a.start ≤ b.start)
+/-- stable insertion sort by a rational key (Python `sorted(key=…)`): `a` goes before the first
+element whose key is not smaller, so equal keys keep their storage order.  (Structural recursion,
+so concrete instances reduce in the kernel; same result as core `List.mergeSort`.) -/
+def insertBy {α} (key : α → Rat) (a : α) : List α → List α
+  | [] => [a]
+  | b :: l => if key a ≤ key b then a :: b :: l else b :: insertBy key a l
+
+def sortBy {α} (key : α → Rat) : List α → List α
+  | [] => []
+  | a :: l => insertBy key a (sortBy key l)
+
+/-- `sorted(sequence.notes, key=lambda n: n.start_time)` -/
+def sortByStart (l : List PNote) : List PNote := sortBy (·.start) l
+/-- `sorted(sequence.control_changes, key=lambda cc: cc.time)` -/
+def sortCCs (l : List PCC) : List PCC := sortBy (·.time) l
 
 structure Pianoroll where
   active : List (List Rat)
@@ -220,6 +236,12 @@ structure Pianoroll where
   controlChanges : List (List Int)
 deriving Repr
 
+/-- `np.zeros` / `np.ones_like` -/
+def initRolls (n w : Nat) : Rolls :=
+  let zero : List (List Rat) := List.replicate n (List.replicate w 0)
+  { active := zero, weights := List.replicate n (List.replicate w 1),
+    onsets := zero, offsets := zero, vels := zero }
+
 def numRows (R : Rat → Rat) (fps total : Rat) : Int := truncR (R (R (total * fps) + 1))
 
 def encode (R R32 : Rat → Rat) (eps : Rat) (c : Cfg) (total : Rat) (notes : List PNote)
@@ -230,13 +252,10 @@ def encode (R R32 : Rat → Rat) (eps : Rat) (c : Cfg) (total : Rat) (notes : Li
   else
     let n := rowsI.toNat
     let w := colsI.toNat
-    let zero : List (List Rat) := List.replicate n (List.replicate w 0)
-    let st0 : Rolls := { active := zero, weights := List.replicate n (List.replicate w 1),
-                         onsets := zero, offsets := zero, vels := zero }
-    match encNotes R R32 eps c total n st0 (sortByStart notes) with
+    match encNotes R R32 eps c total n (initRolls n w) (sortByStart notes) with
     | .error e => .error e
     | .ok st =>
-      match encCCs R eps c n (List.replicate n (List.replicate 128 0)) ccs with
+      match encCCs R eps c n (List.replicate n (List.replicate 128 0)) (sortCCs ccs) with
       | .error e => .error e
       | .ok cc =>
         .ok { active := st.active, weights := st.weights, onsets := st.onsets,
@@ -324,29 +343,44 @@ def scan (P : DParams) : Nat → List Cell → List (List CellIn) → List Emit 
     let rest := scan P (i + 1) r.1 rows
     (r.2.1 ++ rest.1, r.2.2 || rest.2)
 
-def rowCells (a o p : List Bool) (v : List (Option Rat)) : List CellIn :=
-  List.zipWith (fun (x : Bool × Bool) (y : Bool × Option Rat) => ⟨x.1, x.2, y.1, y.2⟩)
-    (List.zip a o) (List.zip p v)
-
 def isRect {α} (m : List (List α)) (rows cols : Nat) : Bool :=
   m.length == rows && m.all (fun r => r.length == cols)
 
-/-- the arrays after the preprocessing block: one silent frame appended, onsets or-ed in,
-frames with a predicted offset cleared -/
+/-- matrix lookup; an index past the end reads `none` -/
+def toMat {α} (m : List (List α)) : Array (Array α) := (m.map List.toArray).toArray
+def getM {α} (m : Array (Array α)) (i p : Nat) : Option α := (m[i]?).bind (·[p]?)
+/-- boolean lookup: `false` past the end, which is what the appended silent frame reads as -/
+def getB (m : Option (Array (Array Bool))) (i p : Nat) : Bool :=
+  match m with
+  | some a => (getM a i p).getD false
+  | none => false
+
+/-- velocity lookup: `none` without `velocity_values` and past the end (numpy would raise) -/
+def getV (m : Option (Array (Array Rat))) (i p : Nat) : Option Rat :=
+  match m with
+  | some a => getM a i p
+  | none => none
+
+/-- cell `(i, p)` of the arrays after the preprocessing block.  `F`, `O`, `X` read the frame / onset /
+offset arrays with one silent frame appended (row `n` reads `false`); onsets are or-ed into the
+frames, then frames with a predicted offset are cleared; `onset_predictions[i - 1]` at `i = 0` is
+numpy's row `-1`, the appended silent row. -/
+def mkCell (F O X : Nat → Nat → Bool) (V : Nat → Nat → Option Rat) (i p : Nat) : CellIn :=
+  let a0 := F i p || O i p
+  { active := a0 && !(a0 && X i p), on := O i p,
+    prevOn := if i = 0 then false else O (i - 1) p, vel := V i p }
+
+def prepareWith (F O X : Nat → Nat → Bool) (V : Nat → Nat → Option Rat) (n w : Nat) :
+    List (List CellIn) :=
+  (List.range (n + 1)).map fun i => (List.range w).map fun p => mkCell F O X V i p
+
 def prepare (frames : List (List Bool)) (ons offs : Option (List (List Bool)))
     (vels : Option (List (List Rat))) (w : Nat) : List (List CellIn) :=
-  let z := List.replicate w false
-  let fr := frames ++ [z]
-  let on := match ons with | some o => o ++ [z] | none => fr.map fun _ => z
-  let prev := z :: on.dropLast
-  let off := match offs with | some o => o ++ [z] | none => fr.map fun _ => z
-  let act0 := List.zipWith (List.zipWith (· || ·)) fr on
-  let act := List.zipWith (List.zipWith fun a o => a && !(a && o)) act0 off
-  let vl : List (List (Option Rat)) := match vels with
-    | some v => v.map (·.map some) ++ [List.replicate w none]
-    | none => fr.map fun _ => List.replicate w none
-  List.zipWith (fun (x : List Bool × List Bool) (y : List Bool × List (Option Rat)) =>
-      rowCells x.1 x.2 y.1 y.2) (List.zip act on) (List.zip prev vl)
+  let fa := some (toMat frames)
+  let oa := ons.map toMat
+  let xa := offs.map toMat
+  let va := vels.map toMat
+  prepareWith (getB fa) (getB oa) (getB xa) (getV va) frames.length w
 
 structure DCfg where
   fps : Rat
@@ -375,6 +409,24 @@ def emitNote (R : Rat → Rat) (fls : Rat) (minMidiPitch : Int) (e : Emit) : ONo
   { pitch := (e.pitch : Int) + minMidiPitch, velocity := e.vel,
     start := R ((e.s : Rat) * fls), end_ := R ((e.e : Rat) * fls) }
 
+/-- all given matrices are `n × w` (the modelled domain; numpy broadcasting of other shapes is not) -/
+def shapesOk (frames : List (List Bool)) (ons offs : Option (List (List Bool)))
+    (vels : Option (List (List Rat))) (n w : Nat) : Bool :=
+  isRect frames n w
+    && (match ons with | some o => isRect o n w | none => true)
+    && (match offs with | some o => isRect o n w | none => true)
+    && (match vels with | some v => isRect v n w | none => true)
+
+/-- the loop of `pianoroll_to_note_sequence` on `w` pitch columns -/
+def decodeCore (R Rv : Rat → Rat) (d : DCfg) (frames : List (List Bool))
+    (ons offs : Option (List (List Bool))) (vels : Option (List (List Rat))) (w : Nat) :
+    Except Err (List ONote × Rat) :=
+  let fls := R (1 / d.fps)
+  let P := dparams R Rv d ons.isSome (ons.isSome && vels.isSome)
+  let r := scan P 0 (List.replicate w (none, d.velocity)) (prepare frames ons offs vels w)
+  if r.2 then .error .indexError
+  else .ok (r.1.map (emitNote R fls d.minMidiPitch), R (((frames.length + 1 : Nat) : Rat) * fls))
+
 /-- `pianoroll_to_note_sequence`: the notes in the order they are added, and `total_time` -/
 def decode (R Rv : Rat → Rat) (d : DCfg) (frames : List (List Bool))
     (ons offs : Option (List (List Bool))) (vels : Option (List (List Rat))) :
@@ -383,19 +435,9 @@ def decode (R Rv : Rat → Rat) (d : DCfg) (frames : List (List Bool))
   else match frames with
   | [] => .error .indexError
   | row0 :: _ =>
-    let w := row0.length
-    let n := frames.length
-    let okShape := isRect frames n w
-      && (match ons with | some o => isRect o n w | none => true)
-      && (match offs with | some o => isRect o n w | none => true)
-      && (match vels with | some v => isRect v n w | none => true)
-    if !okShape then .error .shape
-    else
-      let fls := R (1 / d.fps)
-      let P := dparams R Rv d ons.isSome (ons.isSome && vels.isSome)
-      let r := scan P 0 (List.replicate w (none, d.velocity)) (prepare frames ons offs vels w)
-      if r.2 then .error .indexError
-      else .ok (r.1.map (emitNote R fls d.minMidiPitch), R (((n + 1 : Nat) : Rat) * fls))
+    if shapesOk frames ons offs vels frames.length row0.length then
+      decodeCore R Rv d frames ons offs vels row0.length
+    else .error .shape
 
 /-! ### pianoroll_onsets_to_note_sequence -/
 def onsetRow (R : Rat → Rat) (un : Rat → Int) (fls dur : Rat) (minMidiPitch : Int) (f : Nat) :
